@@ -159,8 +159,10 @@ def gen_config(rng, want=None):
         kappa = 1e-4
     elif r < 0.65:
         kappa = 1e-2
-    elif r < 0.8:
+    elif r < 0.75:
         kappa = 1e-8
+    elif r < 0.80:
+        kappa = rng.choice([5e-324, 1e-321, 1e-300, 1e-200, 1e-100, 1e-30])  # still inside (0, 1e-2]
     else:
         kappa = 10.0 ** rng.uniform(-8, -2)
     if tm:
